@@ -282,6 +282,11 @@ class Runtime:
                 # accumulator that does NOT mutate: returns its list argument plus one new entry
                 p = spec["beh_param"]
                 vals.append(list(args[p]) + [mix(tag, "app", sorted((k, canon(v)) for k, v in args.items() if k != p))])
+            elif beh == "globalrand" and j == 0:
+                # a function that draws from the process-wide random module (seeded by the check before the run)
+                import random as _random
+
+                vals.append(_random.getrandbits(40))
             elif beh == "versioned" and j == 0:
                 vals.append(Versioned(mix(tag, "ver", [(k, canon(v)) for k, v in items])))
             elif beh == "opaque" and j == 0:
